@@ -19,7 +19,7 @@ static const int NBULK = 6144; // extra slots used by the bulk op (fills whole s
 static const int NMASS = 72000; // further slots used by the mass op only (more than 65535 live blocks in ONE slab; needs slabs of 512 KiB and more)
 
 static int P_maps, P_unmaps, P_slab_first, P_slab_additional, P_large, P_realloc_inplace, P_realloc_moved, P_realloc_map, P_xfree, P_handover, P_take_fail, P_contended_construct, P_remote_free_into_head,
-	P_relink_full, P_mapfail_injected, P_mapfail_while_other_holds, P_skipped, P_poison_redundant, P_unpoison_redundant, P_churn_iters, P_arena_exhausted, P_lock_contention, P_recovered, P_pages_sampled, P_unaligned_slack, P_bulk_blocks, P_slab_filled, P_long_churn, P_granule_runs, P_burst_fail, P_multi_pages_checked, P_reuse_checked, P_huge_maps, P_huge_blocks, P_huge_realloc_grow, P_huge_realloc_clamped, P_huge_lazy, P_subpage_base, P_mass, P_mass_blocks, P_trace_records, P_full_fill;
+	P_relink_full, P_mapfail_injected, P_mapfail_while_other_holds, P_skipped, P_poison_redundant, P_unpoison_redundant, P_churn_iters, P_arena_exhausted, P_lock_contention, P_recovered, P_pages_sampled, P_unaligned_slack, P_bulk_blocks, P_slab_filled, P_long_churn, P_granule_runs, P_burst_fail, P_multi_pages_checked, P_reuse_checked, P_huge_maps, P_huge_blocks, P_huge_realloc_grow, P_huge_realloc_clamped, P_huge_lazy, P_subpage_base, P_mass, P_mass_blocks, P_trace_records, P_full_fill, P_long_churn2;
 
 struct Region { uint64_t base, len; int kind; /*0 slab,1 large*/ int64_t pages; int by_task, by_op; uint64_t cls; bool counted; int64_t live = 0; int last_free_task = 0; uint64_t last_free_step = 0; };
 struct Block { char *ptr = nullptr; size_t req = 0, reported = 0; uint64_t pat = 0; int owner = 0; int alloc_task = 0; bool live = false, offered = false, inflight = false, busy = false; VC chan; };
@@ -80,7 +80,7 @@ struct SlabEngine : Engine {
 		P_mapfail_while_other_holds = probe_id("map_failure_while_other_task_holds_a_pool_lock"); P_skipped = probe_id("ops_skipped_precondition"); P_poison_redundant = probe_id("kasan_strict:poison_of_poisoned_byte");
 		P_unpoison_redundant = probe_id("kasan_strict:unpoison_of_unpoisoned_byte"); P_churn_iters = probe_id("churn_iterations"); P_arena_exhausted = probe_id("arena_exhausted"); P_lock_contention = probe_id("alloc_or_free_overlapping_another_task's");
 		P_recovered = probe_id("retry_after_map_failure_succeeded"); P_pages_sampled = probe_id("used_pages_sampled"); P_unaligned_slack = probe_id("unaligned_map_nonzero_residue"); P_bulk_blocks = probe_id("bulk_blocks_allocated"); P_slab_filled = probe_id("slab_filled_completely(second_slab_of_class_mapped_in_bulk)"); P_long_churn = probe_id("long_churn_over_65536_allocations"); P_granule_runs = probe_id("runs_with_8_byte_granule_poison_shadow"); P_burst_fail = probe_id("map_failure_inside_a_burst_of_consecutive_failures"); P_multi_pages_checked = probe_id("used_pages_checked_against_measured_slab_sizes_at_end"); P_reuse_checked = probe_id("end_of_run_reuse_test(all_slab_capacity_refilled_without_map)");
-		P_huge_maps = probe_id("huge:map_of_1GiB_or_more(reserved_address_space)"); P_huge_blocks = probe_id("huge:block_of_2^31_bytes_or_more_live"); P_huge_realloc_grow = probe_id("huge:realloc_grew_a_block_to_2^31_bytes_or_more"); P_huge_realloc_clamped = probe_id("huge:realloc_of_a_huge_block_clamped_to_64_bytes"); P_huge_lazy = probe_id("huge:page_committed_on_first_touch_by_the_pool"); P_subpage_base = probe_id("unaligned_map_returned_a_base_that_is_not_page_aligned"); P_mass = probe_id("mass_op:more_than_65535_blocks_live_in_one_slab"); P_mass_blocks = probe_id("mass_op:blocks_allocated"); P_trace_records = probe_id("trace_records_emitted(policy_with_tracing_hooks;content_not_judged)"); P_full_fill = probe_id("large_block_written_and_verified_in_full(half_of_them_all_zero)");
+		P_huge_maps = probe_id("huge:map_of_1GiB_or_more(reserved_address_space)"); P_huge_blocks = probe_id("huge:block_of_2^31_bytes_or_more_live"); P_huge_realloc_grow = probe_id("huge:realloc_grew_a_block_to_2^31_bytes_or_more"); P_huge_realloc_clamped = probe_id("huge:realloc_of_a_huge_block_clamped_to_64_bytes"); P_huge_lazy = probe_id("huge:page_committed_on_first_touch_by_the_pool"); P_subpage_base = probe_id("unaligned_map_returned_a_base_that_is_not_page_aligned"); P_mass = probe_id("mass_op:more_than_65535_blocks_live_in_one_slab"); P_mass_blocks = probe_id("mass_op:blocks_allocated"); P_trace_records = probe_id("trace_records_emitted(policy_with_tracing_hooks;content_not_judged)"); P_full_fill = probe_id("large_block_written_and_verified_in_full(half_of_them_all_zero)"); P_long_churn2 = probe_id("long_churn_over_131072_allocations_of_the_largest_class");
 	}
 	const char *name() override { return "simslab"; }
 	const char *op_name(int k) override { return k >= 0 && k < OP_N ? op_names[k] : "?"; }
@@ -223,7 +223,8 @@ struct SlabEngine : Engine {
 					} else if (rng.chance(1, 5)) { o.a[3] = 7; o.a[2] = 60 + rng.below(tier ? 1200 : 400); if (p.ntasks > 1 && o.a[2] > 200) o.a[2] = 200; } // many live blocks across ALL classes at once
 				}
 				else { o.kind = OP_CHURN; o.a[1] = (int64_t)gen_size(rng, P, focus, false); o.a[2] = tier ? 50 + rng.below(3000) : 10 + rng.below(300); o.a[3] = 1 + rng.below(6);
-					if (rng.chance(1, tier ? 40 : 150)) { o.a[2] = 66000 + rng.below(3000); o.a[3] = 1 + rng.below(2); o.a[1] = (int64_t)class_size((int)rng.below(3)); } } // a counter that only wraps after 2^16 allocations
+					if (rng.chance(1, tier ? 40 : 150)) { o.a[2] = 66000 + rng.below(3000); o.a[3] = 1 + rng.below(2); o.a[1] = (int64_t)class_size((int)rng.below(3)); } // a counter that only wraps after 2^16 allocations
+					else if (rng.chance(1, tier ? 400 : 1500)) { o.a[2] = 131072 + 30 + rng.below(2000); o.a[3] = 1; o.a[1] = (int64_t)class_size(P.num_buckets - 1); p.knobs["cap1"] = 90000000; } } // 2^17 cycles through ONE slab of the largest class: 2^32 bytes handed out by it (a per-slab quantity kept in bytes in 32 bits)
 				if (!P.aligned || rng.chance(2, 3)) o.place = (uint32_t)rng.next() | 1;
 				if ((prof == "C04" && rng.chance(1, 12)) || (prof != "C04" && prof != "C02" && rng.chance(1, 60))) o.mapfail = 1u << rng.below(2);
 				if (prof == "C04" && burst_left > 0 && (o.kind == OP_ALLOC || o.kind == OP_REALLOC_NULL)) { o.mapfail = 1 | NORETRY; o.a[1] = burst_size; burst_left--; }
@@ -1075,6 +1076,7 @@ struct SlabEngine : Engine {
 			// constant live count alloc/free cycles in one class must not map anything new after warm-up
 			size_t n = (size_t)op.a[1]; int live = (int)op.a[3]; int64_t iters = op.a[2];
 			if (iters > 65536) probe(P_long_churn);
+			if (iters > 131072) probe(P_long_churn2);
 			std::vector<int> hs;
 			for (int i = 0; i < NH && (int)hs.size() < live; i++) if (!blk[i].live && !blk[i].offered) hs.push_back(i);
 			if (hs.empty()) { probe(P_skipped); return; }
